@@ -219,4 +219,12 @@ def run(repo, tier):
         raise AnalysisError('vanished anchor: model_shape column read in make_model_image')
     guard_only(res, 'GUARD', mk, st_[0], {"'model_shape' in params_table.colnames"}, 'taking the per-row model_shape column',
                'the documented precedence (column overrides keyword) is lost when the keyword is also given')
+    ic = repo.get_function('photutils.psf.photometry.IterativePSFPhotometry.__call__')
+    apps = [c_ for c_ in ast.walk(ic.node) if isinstance(c_, ast.Call) and unparse(c_.func, 0) == 'self.fit_results.append']
+    okd = len(apps) >= 2 and all(nf(c_.args[0]) == nf_text('deepcopy(self._psfphot)') for c_ in apps)
+    res.oblige('SPEC', 'IterativePSFPhotometry stores a deep copy of the worker after every iteration', okd, nontrivial=True)
+    if not okd:
+        res.add(Finding('SPEC', ic.fullname, 'fit_results snapshots', ic.loc,
+                        'IterativePSFPhotometry.__call__ must append deepcopy(self._psfphot) after every iteration: make_model_image '
+                        'renders the sources of every stored iteration', {}))
     return res
